@@ -40,6 +40,10 @@ def run(ctx):
     c20.r202(ctx)
     c20.r206(ctx)
     c20.r201b(ctx)
+    from . import c01
+    c01.r119_views(ctx, 'R6.9')
+    from . import c07
+    c07.r77(ctx, 'R6.8')
     _cs.general_rules(ctx, 'R6', ['api.ParquetFile', 'api._pre_allocate', 'core.read_row_group', 'core.read_row_group_arrays'])
 
 
